@@ -9,5 +9,5 @@ for p in $props; do
   out=$(VERIF_SEED=$seed VERIF_BUDGET_S=$budget ./bin/vcheck -property $p -tier thorough 2>&1); code=$?
   e=$(date +%s)
   echo "$p seed=$seed exit=$code $((e-s))s :: $(echo "$out" | tail -1 | cut -c1-220)"
-  [ $code -ne 0 ] && echo "$out" | tail -12 | cut -c1-400
+  [ $code -ne 0 ] && echo "$out" | tail -60 | cut -c1-400
 done
